@@ -5,6 +5,8 @@ from checks import c09 as rt
 
 NEGS_C10 = {"NEG_C10_LifoLocalQueue.cfg": ["C10_StartOrderRespectsSendOrder"],
             "NEG_C10_ExecuteAfterStop.cfg": ["C10_NothingAfterStop"],
+            "NEG_C10_SelfSendSkipsChannel_stop.cfg": ["C10_NothingAfterStop"],
+            "NEG_C10_SelfSendSkipsChannel_order.cfg": ["C10_StartOrderRespectsSendOrder"],
             "NEG_C10_RunInlineOnSender.cfg": ["C10_OnOwnThread"],
             "NEG_C10_DupExecute.cfg": ["C10_AtMostOnce"],
             "NEG_C10_SpawnTrueWhenGone.cfg": ["C10_SpawnFalseWhenGone"],
@@ -16,14 +18,20 @@ def run(ctx):
     if ctx.quick:
         cfgs = [("MC_C10_quick.cfg", "exhaustive: 2 worker arbiters + system arbiter, 4 calls (spawn / spawn_fn / stop / "
                                      "System stop), busy tasks"),
-                ("MC_C10_calls.cfg", "exhaustive: three-phase calls from 2 threads, 1 arbiter, 3 calls")]
+                ("MC_C10_calls.cfg", "exhaustive: three-phase calls from 2 threads, 1 arbiter, 3 calls"),
+                ("MC_C10_self.cfg", "exhaustive: 1 worker arbiter + system arbiter, 3 calls whose tasks may send to / stop "
+                                    "their own arbiter from its thread (Arbiter::current())")]
     else:
         cfgs = [("MC_C10_thorough.cfg", "exhaustive: 3 worker arbiters, 5 calls"),
-                ("MC_C10_quick.cfg", "exhaustive small"), ("MC_C10_calls.cfg", "three-phase calls")]
+                ("MC_C10_quick.cfg", "exhaustive small"), ("MC_C10_calls.cfg", "three-phase calls"),
+                ("MC_C10_self.cfg", "tasks that send to / stop their own arbiter from its thread"),
+                ("MC_C10_self_thorough.cfg", "the same with 2 worker arbiters, 3 calls")]
     rt.model_checks(ctx, cfgs, NEGS_C10, need_actions=["ArbYield"])
     ctx.cov["exhaustive"] = True
     ctx.cov["constants"] = {"model": "see tlc_runs", "driver": "1..3 arbiters (+ system arbiter), owner + 1..3 sender "
-                            "threads with cloned handles, 2..6 commands each, bodies done/yield/pend/panic/busy"}
+                            "threads with cloned handles, 2..6 commands each, bodies done/yield/pend/panic/busy/"
+                            "self_spawn/self_stop_then_spawn (sent from the arbiter's own thread), plus scenarios with "
+                            "2-3 Systems hosted one after another by one OS thread (marker command per arbiter)"}
     rt.flow(ctx, flavour="c10", tcfg="Trace_C10.cfg",
             nt_rule="a run is non-trivial when two sends to the same arbiter were ordered by real-time precedence and "
                     "the later one started (order), or a send started after a stop() call on its arbiter had ended "
